@@ -173,6 +173,16 @@ pub fn run(ctx: &Ctx) -> i32 {
                 files = vec![("main.s".to_string(), t)];
                 acc.count("several_predecessors_family_programs", 1);
             }
+            if k % 8 == 6 {
+                // a function that is also the first line of the program and reads a saved register / a
+                // temporary it never assigned: the program-level and the function-level lints look at
+                // the same read
+                let r = *rng.pick(&["s1", "s2", "s5", "s11", "t3", "a4"]);
+                let second = if rng.chance(0.4) { format!("    add a1, {r}, {r}\n") } else { String::new() };
+                let t = format!("# first\nf:\n    addi a0, {r}, 1\n{second}    ret\nmain:\n    jal f\n    li a7, 10\n    ecall\n");
+                files = vec![("main.s".to_string(), t)];
+                acc.count("function_first_family_programs", 1);
+            }
             acc.evaluations += 1;
             let replay = json!({"files": files});
             // ---------- library, fresh threads
